@@ -59,6 +59,11 @@ static THREADLOCAL event_t evs[MAXEV];
 static THREADLOCAL int nev = 0;
 static THREADLOCAL long ev_overflow = 0;
 static THREADLOCAL rdsparser_t *cur_handle = NULL;
+/* `ri m`: what every callback does from INSIDE the callback (C15 "inside or outside callbacks"):
+ * bit 0: register/unregister another callback; bit 1: change the user-data pointer */
+static THREADLOCAL int reent = 0;
+static THREADLOCAL unsigned long reent_count = 0;
+static void do_register(rdsparser_t *r, int k, int on);
 
 static const int caps[4] = { RDSPARSER_PS_LENGTH, RDSPARSER_RT_LENGTH, RDSPARSER_RT_LENGTH, RDSPARSER_PTYN_LENGTH };
 
@@ -120,6 +125,11 @@ static event_t *new_event(rdsparser_t *r, int kind, long arg, void *ud)
     /* exercise every getter inside the callback (C15: getters are pure observers) */
     snap_t tmp; snap_all(r, &tmp);
     (void)rdsparser_get_rt(r, 7);
+    if (reent) {
+        reent_count++;
+        if (reent & 1) do_register(r, (int)((kind + 1 + reent_count % 7) % 12), (int)((reent_count / 3) & 1));
+        if (reent & 2) rdsparser_set_user_data(r, (void *)(uintptr_t)(0x5000 + reent_count % 97));
+    }
     return e;
 }
 
@@ -351,6 +361,8 @@ int run_ops_file(const char *path, FILE *out)
         } else if (line[0] == 'u' && line[1] == ' ') {
             unsigned long u = strtoul(line + 2, NULL, 10);
             rdsparser_set_user_data(in->rds, (void *)(uintptr_t)u);
+        } else if (line[0] == 'r' && line[1] == 'i' && line[2] == ' ') {
+            reent = atoi(line + 3);
         } else if (!strcmp(line, "q")) {
             snap_t tmp; snap_all(in->rds, &tmp); snap_all(in->rds, &tmp);
             /* out-of-range RT flag arguments select buffer B (documented `!!flag`) */
